@@ -561,85 +561,85 @@ def check_select(ctx):
             some = [x for x in mir.walk(e) if x[0] == "agg" and x[3] == "Some"]
             vs, inner = either_nest(some[0][4][0][1]) if some else (None, None)
             ctx.ob("select", "poll_close: the %s's last events wrapped in Either::%s" % (WHO[proto], side), vs == [side], s.loc(), render(e)[:200])
-    # on_connection_event
+    # on_connection_event: every arm may do its routing inline or hand its payload to one crate-local private helper
+    # (called exactly once on every path of the arm, `self` first); the rules below run on the settled scope and compare
+    # expressions after substituting the helper's parameters by the caller's arguments.
     b = ctx.body(SW, CH + r"on_connection_event$")
     EV = lm.pname(b, 2)
     where = "%s:%d" % (b.file, b.line)
-    rets = b.return_blocks()
     FWD = r"handler::ConnectionHandler::on_connection_event$"
-    fwd = b.call_sites(FWD)
-    ctx.floor("select", "on_connection_event forwards", fwd, 10)
 
-    def arm(name):
+    def is_fwd(site):
+        return re.search(FWD, strip_generics(site.body.call_name(site.term))) is not None and lm.recv_self_field(site.body.site_expr(site)) in (P1, P2)
+
+    def arm_scope(name):
         ents = lib.arm_entry(b, r"^discr\(%s\)$" % re.escape(EV), name)
         ctx.ob("select", "floor:on_connection_event arm " + name, len(ents) == 1, where, str(ents), nontrivial=False)
-        return [t for _, t in ents]
+        if not ents:
+            return None
+        sc, chain = lm.settle(prog, SW, lm.Scope(b, [t for _, t in ents]), is_fwd)
+        if chain:
+            ctx.note("on_connection_event %s arm delegates to %s" % (name, " -> ".join(chain)))
+            ctx.use(sc.body)
+        return sc
+    n_fwd = 0
     transposers = []
     for name in ("FullyNegotiatedOutbound", "FullyNegotiatedInbound", "DialUpgradeError"):
-        st = arm(name)
-        if not st:
+        sc = arm_scope(name)
+        if sc is None:
             continue
-        reg = b.reachable(st)
+        hb, rets, hwhere = sc.body, sc.rets(), sc.where()
+        PAY = "%s@%s.0" % (EV, name)
+        fwd = [c for c in sc.calls() if is_fwd(c)]
+        n_fwd += len(fwd)
         # the transposer: a call on the arm's payload whose result is matched on Left / Right
-        tr = [c for c in b.call_sites() if c.bb in reg and b.site_expr(c)[2] and render(b.site_expr(c)[2][0]) == "%s@%s.0" % (EV, name) and
-              lib.switch_edges_on_site(b, c, {"Left"}, r"^discr\(") and lib.switch_edges_on_site(b, c, {"Right"}, r"^discr\(")]
-        ctx.ob("select", "on_connection_event %s: the event is split by side" % name, len(tr) == 1, where, "%d call(s) on %s@%s.0 whose result is matched on Left/Right" % (len(tr), EV, name))
+        tr = [c for c in sc.calls() if hb.site_expr(c)[2] and sc.rx(hb.site_expr(c)[2][0]) == PAY and
+              lib.switch_edges_on_site(hb, c, {"Left"}, r"^discr\(") and lib.switch_edges_on_site(hb, c, {"Right"}, r"^discr\(")]
+        ctx.ob("select", "on_connection_event %s: the event is split by side" % name, len(tr) == 1, hwhere, "%d call(s) on %s whose result is matched on Left/Right" % (len(tr), PAY))
         if not tr:
             continue
-        TR = render(b.site_expr(tr[0]))
-        cands = [x for x in prog.bodies(SW) if x.npath == strip_generics(b.call_name(tr[0].term)) and x.argc == 1 and (name + "<") in str(x.locals[1])]
+        TR = render(hb.site_expr(tr[0]))
+        cands = [x for x in prog.bodies(SW) if x.npath == strip_generics(hb.call_name(tr[0].term)) and x.argc == 1 and (name + "<") in str(x.locals[1])]
         transposers.append((name, cands))
         for side, proto in PROTO.items():
-            edges = lib.switch_edges_on_site(b, tr[0], {side}, r"^discr\(")
-            mine = [c for c in fwd if c.bb in reg and render(b.site_expr(c)[2][0]) == proto]
-            theirs = [c for c in fwd if c.bb in reg and render(b.site_expr(c)[2][0]) != proto]
+            edges = lib.switch_edges_on_site(hb, tr[0], {side}, r"^discr\(")
+            mine = [c for c in fwd if sc.rx(hb.site_expr(c)[2][0]) == proto]
+            theirs = [c for c in fwd if sc.rx(hb.site_expr(c)[2][0]) != proto]
             st2 = [t for _, t in edges]
-            got = lib.count_range(b, st2, rets, lib.bbs(mine))
-            ctx.ob("select", "on_connection_event %s: %s side goes to the %s once" % (name, side, WHO[proto]), got == (1, 1), where, "forwards on the %s edge: %s" % (side, got))
-            got = lib.count_range(b, st2, rets, lib.bbs(theirs))
-            ctx.ob("select", "on_connection_event %s: %s side never reaches the other handler" % (name, side), got == (0, 0), where, "other forwards on the %s edge: %s" % (side, got))
+            got = lib.count_range(hb, st2, rets, lib.bbs(mine))
+            ctx.ob("select", "on_connection_event %s: %s side goes to the %s once" % (name, side, WHO[proto]), got == (1, 1), hwhere, "forwards on the %s edge: %s" % (side, got))
+            got = lib.count_range(hb, st2, rets, lib.bbs(theirs))
+            ctx.ob("select", "on_connection_event %s: %s side never reaches the other handler" % (name, side), got == (0, 0), hwhere, "other forwards on the %s edge: %s" % (side, got))
             for c in mine:
-                e = b.site_expr(c)[2][1]
+                e = hb.site_expr(c)[2][1]
                 ok = lib.agg_variants(e, r"handler::ConnectionEvent$") == [name] and render(e[4][0][1]) == "%s@%s.0" % (TR, side)
                 ctx.ob("select", "on_connection_event %s: the %s receives the %s half as the same event kind" % (name, WHO[proto], side), ok, c.loc(), render(e)[:200])
     for name in ("AddressChange", "LocalProtocolsChange", "RemoteProtocolsChange"):
-        st = arm(name)
-        if not st:
+        sc = arm_scope(name)
+        if sc is None:
             continue
-        reg = b.reachable(st)
+        hb, rets, hwhere = sc.body, sc.rets(), sc.where()
+        PAY = "%s@%s.0" % (EV, name)
+        fwd = [c for c in sc.calls() if is_fwd(c)]
+        n_fwd += len(fwd)
         for proto in PROTO.values():
-            mine = [c for c in fwd if c.bb in reg and render(b.site_expr(c)[2][0]) == proto and lib.agg_variants(b.site_expr(c)[2][1], r"handler::ConnectionEvent$") == [name]]
-            got = lib.count_range(b, st, rets, lib.bbs(mine)) if mine else (0, 0)
-            ctx.ob("select", "on_connection_event %s reaches the %s once" % (name, WHO[proto]), got == (1, 1), where, "forwards of %s to %s on the arm: %s" % (name, proto, got))
+            mine = [c for c in fwd if sc.rx(hb.site_expr(c)[2][0]) == proto and lib.agg_variants(hb.site_expr(c)[2][1], r"handler::ConnectionEvent$") == [name]]
+            got = lib.count_range(hb, sc.starts, rets, lib.bbs(mine)) if mine else (0, 0)
+            ctx.ob("select", "on_connection_event %s reaches the %s once" % (name, WHO[proto]), got == (1, 1), hwhere, "forwards of %s to %s on the arm: %s" % (name, proto, got))
             for c in mine:
-                r = render(b.site_expr(c)[2][1])
-                ctx.ob("select", "on_connection_event %s: the %s receives the event's own content" % (name, WHO[proto]), "%s@%s.0" % (EV, name) in r, c.loc(), r[:200])
-    # ListenUpgradeError: routed in the arm itself or in one private helper that receives the arm's payload
-    st = arm("ListenUpgradeError")
-    if st:
-        reg = b.reachable(st)
-        inline = [c for c in fwd if c.bb in reg]
-        hb, hst, shape = b, st, "inline in the arm"
-        if not inline:
-            helpers = [c for c in b.call_sites() if c.bb in reg and len(b.site_expr(c)[2]) == 2 and render(b.site_expr(c)[2][0]) == "self" and
-                       render(b.site_expr(c)[2][1]) == "%s@ListenUpgradeError.0" % EV]
-            got = lib.count_range(b, st, rets, lib.bbs(helpers)) if helpers else (0, 0)
-            ctx.ob("select", "on_connection_event ListenUpgradeError handled once", got == (1, 1), where, "helper(self, %s@ListenUpgradeError.0) on the arm: %s" % (EV, got))
-            cands = [x for c in helpers for x in prog.bodies(SW) if x.npath == strip_generics(b.call_name(c.term)) and x.argc == 2]
-            if len(cands) != 1:
-                raise mir.RuleError("ListenUpgradeError arm: neither forwards in the arm nor a unique crate-local helper (%d candidates)" % len(cands))
-            hb, hst, shape = cands[0], [0], "helper " + cands[0].npath.split("::")[-1]
-            ctx.use(hb)
-        ctx.note("ListenUpgradeError routing shape: " + shape)
-        hwhere = "%s:%d" % (hb.file, hb.line)
-        hrets = hb.return_blocks()
-        hreg = hb.reachable(hst)
-        hfwd = [c for c in hb.call_sites(FWD) if c.bb in hreg]
+                r = sc.rx(hb.site_expr(c)[2][1])
+                ctx.ob("select", "on_connection_event %s: the %s receives the event's own content" % (name, WHO[proto]), PAY in r, c.loc(), r[:200])
+    sc = arm_scope("ListenUpgradeError")
+    if sc is not None:
+        hb, hst, hrets, hwhere = sc.body, sc.starts, sc.rets(), sc.where()
+        hreg = sc.region
+        hfwd = [c for c in sc.calls() if is_fwd(c)]
+        n_fwd += len(hfwd)
         ctx.floor("select", "listen error forwards", hfwd, 2, exact=True)
         for side, proto in PROTO.items():
             ents = [(x, t) for x, t in lib.arm_entry(hb, r"^discr\(.*\.error\)$", side) if x in hreg]
-            mine = [c for c in hfwd if render(hb.site_expr(c)[2][0]) == proto]
-            theirs = [c for c in hfwd if render(hb.site_expr(c)[2][0]) != proto]
+            mine = [c for c in hfwd if sc.rx(hb.site_expr(c)[2][0]) == proto]
+            theirs = [c for c in hfwd if sc.rx(hb.site_expr(c)[2][0]) != proto]
             ctx.ob("select", "floor:listen error %s arm" % side, len(ents) == 1, hwhere, str(ents), nontrivial=False)
             if ents:
                 st2 = [t for _, t in ents]
@@ -648,10 +648,12 @@ def check_select(ctx):
                 got = lib.count_range(hb, st2, hrets, lib.bbs(theirs))
                 ctx.ob("select", "listen error: %s never reaches the other handler" % side, got == (0, 0), hwhere, "%s" % (got,))
             for c in mine:
-                e = hb.site_expr(c)[2][1]
-                ctx.ob("select", "listen error info side: the %s receives its own info and error" % WHO[proto], side_of(e) == {side} and lib.agg_variants(e, r"handler::ConnectionEvent$") == ["ListenUpgradeError"], c.loc(), render(e)[:220])
+                e = sc.sx(hb.site_expr(c)[2][1])
+                ctx.ob("select", "listen error info side: the %s receives its own info and error" % WHO[proto],
+                       side_of(e) == {side} and lib.agg_variants(e, r"handler::ConnectionEvent$") == ["ListenUpgradeError"] and ("%s@ListenUpgradeError.0" % EV) in render(e), c.loc(), render(e)[:220])
         got = lib.count_range(hb, hst, hrets, lib.bbs(hfwd))
         ctx.ob("select", "listen error is delivered to exactly one handler", got == (1, 1), hwhere, "forwards on all paths: %s" % (got,))
+    ctx.ob("select", "floor:on_connection_event forwards", n_fwd >= 14, where, "%d forwards over all arms (inline or delegated)" % n_fwd, nontrivial=False)
     # transposers: result side = payload side
     ctx.ob("select", "floor:transposer bodies", len(transposers) == 3 and all(len(c) == 1 for _, c in transposers), msg=str([(k, [x.npath for x in c]) for k, c in transposers]), nontrivial=False)
     for kind, cands in transposers:
